@@ -1,4 +1,5 @@
 import TabulaModel.Lemmas.HtmlSrc
+import TabulaModel.Lemmas.HtmlDepth
 /-!
 Helper lemmas for C19 (Props/C19Api.lean): raw mode values, the reader's cache over call
 sequences, the Document view, the EPUB chapter loop.
@@ -174,19 +175,34 @@ theorem squeeze_joinWith (sepr : Str) (h : squeeze sepr = []) :
       rw [joinWith, squeeze_append, squeeze_append, h, squeeze_joinWith sepr h (y :: rest)]
       simp
 
+/-- one step of the chapter loop -/
+theorem epubParts_cons (view : Dom → Str) (d : Dom) (rest : List Dom) :
+    epubParts view (d :: rest) =
+      (if admitted d = true ∧ trim (view d) ≠ [] then [trim (view d)] else []) ++ epubParts view rest := by
+  unfold epubParts
+  rw [List.filterMap_cons, guarded_eq]
+  by_cases ha : admitted d = true
+  · by_cases ht : trim (view d) = []
+    · simp [ha, ht]
+    · simp [ha, ht]
+  · simp [ha]
+
+/-- up to white space the parts are the views of the admitted chapters (a refused chapter
+contributes nothing, an empty one nothing visible) -/
 theorem epubParts_squeeze (view : Dom → Str) :
-    ∀ chapters : List Dom, (epubParts view chapters).flatMap squeeze = chapters.flatMap fun d => squeeze (view d)
+    ∀ chapters : List Dom,
+      (epubParts view chapters).flatMap squeeze = (chapters.filter admitted).flatMap fun d => squeeze (view d)
   | [] => rfl
   | d :: rest => by
       have ih := epubParts_squeeze view rest
-      unfold epubParts at ih ⊢
-      rw [List.filterMap_cons, List.flatMap_cons]
-      simp only []
-      by_cases ht : trim (view d) = []
-      · simp only [ht, if_true]
-        rw [ih, (trim_eq_nil_iff _).mp ht]; rfl
-      · simp only [ht, if_false, List.flatMap_cons, squeeze_trim, ih]
-
+      rw [epubParts_cons, List.flatMap_append, ih, List.filter_cons]
+      by_cases ha : admitted d = true
+      · by_cases ht : trim (view d) = []
+        · simp only [ha, ht, ne_eq, not_true_eq_false, and_false, if_false, if_true, List.flatMap_nil, List.nil_append,
+            List.flatMap_cons]
+          rw [(trim_eq_nil_iff _).mp ht]; rfl
+        · simp [ha, ht, squeeze_trim]
+      · simp [ha]
 
 /-! ### joining non-empty parts with a visible separator (EPUB Markdown) -/
 
@@ -204,22 +220,48 @@ theorem squeeze_joinWith_map (sepr : Str) : ∀ parts : List Str,
       rw [joinWith, squeeze_append, squeeze_append, squeeze_joinWith_map sepr (y :: rest)]
       simp [joinWith]
 
-/-- the parts of the chapter loop, squeezed: the non-empty squeezed views -/
+/-- the parts of the chapter loop, squeezed: the non-empty squeezed views of the admitted chapters -/
 theorem epubParts_map_squeeze (view : Dom → Str) : ∀ chapters : List Dom,
-    (epubParts view chapters).map squeeze = (chapters.map fun d => squeeze (view d)).filter (· != [])
+    (epubParts view chapters).map squeeze =
+      ((chapters.filter admitted).map fun d => squeeze (view d)).filter (· != [])
   | [] => rfl
   | d :: rest => by
       have ih := epubParts_map_squeeze view rest
-      unfold epubParts at ih ⊢
-      rw [List.filterMap_cons, List.map_cons, List.filter_cons]
-      simp only []
-      by_cases ht : trim (view d) = []
-      · have hs : squeeze (view d) = [] := (trim_eq_nil_iff _).mp ht
-        simp only [ht, if_true, hs, bne_self_eq_false, Bool.false_eq_true, if_false]
-        exact ih
-      · have hs : ¬ squeeze (view d) = [] := fun h => ht ((trim_eq_nil_iff _).mpr h)
-        have hb : (squeeze (view d) != []) = true := by simpa using hs
-        simp only [ht, if_false, hb, if_true, List.map_cons, squeeze_trim, ih]
+      rw [epubParts_cons, List.map_append, ih, List.filter_cons]
+      by_cases ha : admitted d = true
+      · by_cases ht : trim (view d) = []
+        · have hs : squeeze (view d) = [] := (trim_eq_nil_iff _).mp ht
+          simp [ha, ht, hs]
+        · have hs : ¬ squeeze (view d) = [] := fun h => ht ((trim_eq_nil_iff _).mpr h)
+          simp [ha, ht, hs, squeeze_trim]
+      · simp [ha]
+
+/-- the loop never looks at the view of a chapter `OpenReader` refuses -/
+theorem epubParts_congr (view view' : Dom → Str) (h : ∀ d, depth d ≤ maxTreeDepth → view d = view' d) :
+    ∀ chapters : List Dom, epubParts view chapters = epubParts view' chapters
+  | [] => rfl
+  | d :: rest => by
+      rw [epubParts_cons, epubParts_cons, epubParts_congr view view' h rest]
+      by_cases ha : admitted d = true
+      · have : depth d ≤ maxTreeDepth := by simpa [admitted] using ha
+        rw [h d this]
+      · simp [ha]
+
+theorem epubParts_length (view : Dom → Str) : ∀ chapters : List Dom,
+    (epubParts view chapters).length ≤ (chapters.filter admitted).length
+  | [] => Nat.le_refl _
+  | d :: rest => by
+      have ih := epubParts_length view rest
+      rw [epubParts_cons, List.length_append, List.filter_cons]
+      by_cases ha : admitted d = true
+      · by_cases ht : trim (view d) = []
+        · simp [ha, ht]; omega
+        · simp [ha, ht]; omega
+      · simp [ha]; exact ih
+
+theorem epubParts_append (view : Dom → Str) (a b : List Dom) :
+    epubParts view (a ++ b) = epubParts view a ++ epubParts view b := by
+  unfold epubParts; exact List.filterMap_append
 
 theorem joinWith_filter_sublist (sepr : Str) (f g : Dom → Str) (h : ∀ d, (g d).Sublist (f d)) :
     ∀ l : List Dom,
